@@ -59,18 +59,18 @@ type Sched struct {
 	// (the trigger pool's stopper, woken by a cancellation); quiescence then also requires that no goroutine
 	// executing f1 code that is still unknown to the scheduler is runnable.
 	WatchForeign bool
-	mu          sync.Mutex
-	cond        *sync.Cond
-	procs       map[int64]*Proc
-	byName      map[string]*Proc
-	order       []*Proc
-	Namer       func(point string, who any, seq int) string // names goroutines first seen at a hook
-	NonBlocking func(point string) (State, bool)            // points that only announce a state change (Running = just log)
-	OnPoint     func(proc string, point string, n int64)    // called (under the scheduler mutex) at every hook arrival
-	Log         []Event
-	seq         map[string]int
-	free        bool // pass-through mode (no gating)
-	Timeout     time.Duration
+	mu           sync.Mutex
+	cond         *sync.Cond
+	procs        map[int64]*Proc
+	byName       map[string]*Proc
+	order        []*Proc
+	Namer        func(point string, who any, seq int) string // names goroutines first seen at a hook
+	NonBlocking  func(point string) (State, bool)            // points that only announce a state change (Running = just log)
+	OnPoint      func(proc string, point string, n int64)    // called (under the scheduler mutex) at every hook arrival
+	Log          []Event
+	seq          map[string]int
+	free         bool // pass-through mode (no gating)
+	Timeout      time.Duration
 }
 
 func New() *Sched {
@@ -235,16 +235,18 @@ func blockedStatus() (map[int64]string, map[int64]bool, map[int64]bool) {
 			// a real wait - unless it is a wait inside the scheduler itself (its mutex / the resume channel
 			// of a yield), or a runtime-internal semaphore (allocation during the stop-the-world of this dump)
 			if bytes.Contains(g, []byte("verifharness/sched.(*Sched)")) {
-				continue
+				break
 			}
 			if st == "semacquire" && !bytes.Contains(g, []byte("\nsync.(*")) {
-				continue
+				break
 			}
 			out[id] = st + "\n" + string(g)
 		default:
 			// running, runnable, syscall, preempted, copystack, GC ...: not blocked
 		}
-		if _, blocked := out[id]; !blocked && !bytes.Contains(g, []byte("verifharness/sched.(*Sched)")) {
+		// (a goroutine inside the scheduler's own hook code counts too: it may be arriving at its FIRST yield point and
+		// not be registered yet; registered ones are filtered out by foreignMoving)
+		if _, blocked := out[id]; !blocked {
 			for _, f := range f1Frames {
 				if bytes.Contains(g, f) {
 					moving[id] = true
